@@ -1213,7 +1213,9 @@ def normalise(f, funcs, recorded_funcs, recorded_locals, global_ptrs=()):
     n += pointer_for_loops(f)
     n += countdown_while(f)
     n += countdown_loops(f)
-    if recorded_locals:
+    cur_locals = C.c_locals(f)
+    if recorded_locals and (len(cur_locals) > len(recorded_locals) or (set(cur_locals) - set(recorded_locals) and set(cur_locals) & set(recorded_locals))):
+        # (a function whose locals were all renamed and none added has no new scalars: its locals are paired position by position)
         C.c_inline_new_scalars(f, set(recorded_locals))
         n += forward_scalars(f, recorded_locals)
         C.c_inline_new_scalars(f, set(recorded_locals))
